@@ -2,7 +2,7 @@
    Statements only; proofs in Proofs/ItsFacts.v and Proofs/ItsMore.v. *)
 From Coq Require Import String List NArith Lia Bool.
 From Ax Require Import Lib.Bytes Lib.Mvx Lib.SolAbi Lib.Keccak Model.Check Model.Env Model.Gateway Model.TokenManager Model.Its
-     Proofs.GatewayMsgs Proofs.TMFacts Proofs.ItsFacts Proofs.ItsWorld Proofs.ItsMore Gen.Generated.
+     Proofs.GatewayMsgs Proofs.TMFacts Proofs.ItsFacts Proofs.ItsWorld Proofs.ItsMore Proofs.ItsOutbound Gen.Generated.
 Import ListNotations.
 Open Scope N_scope.
 
@@ -57,10 +57,38 @@ Section C05.
   (* the payload is byte-exact Solidity abi.encode (C06) *)
   Theorem c05_payload_abi : forall toks, Forall wf_token toks -> spec_size toks < 2 ^ 32 -> enc_impl toks = enc_spec toks.
   Proof. exact Proofs.SolAbiEnc.enc_impl_eq_spec. Qed.
+
+  (* the whole transaction at the level of the world (Proofs/ItsOutbound.v): a successful outbound transfer leaves
+     every balance of the service unchanged: what the caller attached (recv) is exactly what goes on to the token
+     manager (transfer amount) and the gas service (gas value) *)
+  Variable verify : bytes -> bytes -> bytes -> bool.
+  Theorem c05_split_accounts_for_everything : forall v gas tok amount gtok g x, no_egld_alias v ->
+    split_payment v gas = Some (tok, amount, gtok, g) ->
+    g = gas /\ recv v x = (if bytes_eqb tok x then amount else 0) + (if bytes_eqb gtok x then gas else 0).
+  Proof. exact split_payment_recv. Qed.
+  Theorem c05_service_balances_unchanged : forall w o c token_id,
+    (exists dc da md gas, o = ITransfer c token_id dc da md gas) \/ (exists dc da d gas, o = ICallContract c token_id dc da d gas) ->
+    io_ok (snd (istep H verify w o)) = true ->
+    no_egld_alias (ic_value c) ->
+    ic_caller c <> ic_self c -> tm_addr (iw_its w) token_id <> ic_self c -> i_gas (iw_its w) <> ic_self c ->
+    forall x, bal (iw_led (fst (istep H verify w o))) (ic_self c) x = bal (iw_led w) (ic_self c) x.
+  Proof. exact (outbound_keeps_service_balances H verify). Qed.
 End C05.
 Print Assumptions c05_effect.
 Print Assumptions c05_message.
 Print Assumptions c05_split.
+Print Assumptions c05_service_balances_unchanged.
+
+(* non-vacuity: in the world of Proofs/ItsMore.v (Findings.w08) a user sends 10 TOK with 3 of them as gas:
+   the call succeeds, 7 go to the manager, 3 to the gas service, the service keeps nothing *)
+Example c05_service_balances_nonvacuous :
+  let o := ITransfer (Findings.cx Findings.user (Findings.esdt 10)) Findings.tid (str "ethereum") (str "0xdead") [] 3 in
+  let r := istep keccak256 Findings.vf Findings.w08 o in
+  io_ok (snd r) = true /\ bal (iw_led (fst r)) Findings.self Findings.tok = 0 /\
+  bal (iw_led (fst r)) Findings.tma Findings.tok = 107 /\ bal (iw_led (fst r)) Findings.gasa Findings.tok = 3 /\
+  bal (iw_led (fst r)) Findings.user Findings.tok = 90.
+Proof. vm_compute. repeat split; reflexivity. Qed.
 Example pin_egld_esdt : gen_its_ESDT_EGLD_IDENTIFIER = EGLD_ESDT := eq_refl.
 Example pin_metadata_version : gen_its_LATEST_METADATA_VERSION = 0 := eq_refl.
 Check c05_effect.
+Check c05_service_balances_unchanged.
